@@ -5,6 +5,9 @@ Gen/KernelTbl.lean:
                                 (the header of the request being handled, a local of that handler instance) and
                                 Kernel.send itself never falls back to the shared attribute `self.parent_header`
   SHELL_SEND_SITES              number of send sites found in shell_handler
+  SEND_MULTIPART_ONE_WRITE      ZmqSocket.send_multipart hands the whole message to the transport in ONE write (a single
+                                awaited `self.write_bytes(...)` after the loop over the parts, none inside it), so another task
+                                sending on the same socket cannot get its frames in between
 """
 import ast
 
@@ -28,6 +31,17 @@ def gen_kernel_tbl():
         ok = len(explicit) == len(sites) and not send_uses_shared
         body.append(f"def SHELL_SENDS_EXPLICIT_PARENT : Bool := {'true' if ok else 'false'}")
         body.append(f"def SHELL_SEND_SITES : Nat := {len(sites)}")
+    sm = find_func(jk, "send_multipart", "ZmqSocket")
+    if sm is None:
+        broken.append("jupyter_kernel.ZmqSocket.send_multipart not found")
+    else:
+        awaits = [n for n in ast.walk(sm) if isinstance(n, ast.Await)]
+        in_loop = [a for lp in ast.walk(sm) if isinstance(lp, (ast.For, ast.While, ast.AsyncFor)) for a in ast.walk(lp)
+                   if isinstance(a, ast.Await)]
+        writes = [a for a in awaits if isinstance(a.value, ast.Call) and ast.unparse(a.value.func) in
+                  ("self.write_bytes", "self.writer.drain")]
+        one = len(awaits) == 1 and len(writes) == 1 and not in_loop
+        body.append(f"def SEND_MULTIPART_ONE_WRITE : Bool := {'true' if one else 'false'}")
     emit("KernelTbl", "\n".join(body))
 
 
